@@ -76,7 +76,7 @@ func main() {
 		name string
 		run  func()
 	}{
-		{"regression", runRegression}, {"short", runShort}, {"sub4", runSubAlphabets}, {"resident", runResident},
+		{"regression", runRegression}, {"bytes", runEveryByte}, {"short", runShort}, {"sub4", runSubAlphabets}, {"resident", runResident},
 		{"macro", runMacro}, {"nonlatin1", runNonLatin1}, {"hints", runHints}, {"capacity", runCapacity}, {"sizes", runRequestedSizes},
 	}
 	only := os.Getenv("C02_ONLY") // development aid: comma-separated family names; the run is then marked incomplete
@@ -219,6 +219,26 @@ func runRegression() {
 }
 
 // ------------------------------------------------------------------ (a) all short strings
+
+// runEveryByte: every Latin-1 character value 0..255 alone, doubled, and inside each mode family's
+// native context (digits, upper case, lower case, X12, EDIFACT, extended), at the front, in the
+// middle and at the end — the per-character tables and range tests of the encoders and of the
+// decoders' shift sets see every value, not only one representative per class.
+func runEveryByte() {
+	ctx := [][2]string{{"", ""}, {"A", ""}, {"", "A"}, {"12", "34"}, {"AB", "CD"}, {"ab", "cd"}, {"*>", "\r*"}, {"@^", "^@"}, {"é\u0080", "éé"},
+		{"ABCDEFGH", ""}, {"", "ABCDEFGH"}, {"abcdefgh", "ijkl"}, {"12345678", "9"}, {"@@@@@@@@", "@"}, {"*>*>*>*>*", ""}}
+	chk.Range(fmt.Sprintf("every character value 0..255 (as the rune of that value) alone, doubled and in %d contexts (front / middle / end of digit, upper-case, lower-case, X12, EDIFACT and extended runs), matrix and image level", len(ctx)), 256,
+		func(i int) string { return fmt.Sprintf("U+%04X", i) },
+		func(l *mc.Local, i int) {
+			c := string(rune(i))
+			for _, x := range ctx {
+				evalCase(l, "byte", x[0]+c+x[1], hints{}, lvMatrix)
+			}
+			evalCase(l, "byte", c+c, hints{}, lvMatrix)
+			evalCase(l, "byte", c+"A"+c, hints{}, lvMatrix)
+			evalCase(l, "byte", "a"+c+c+"a", hints{}, lvMatrix)
+		})
+}
 
 func runShort() {
 	maxL := chk.Pick(5, 6)
